@@ -14,13 +14,13 @@ pub fn stub_fmt_write(_o: &mut dyn core::fmt::Write, _a: core::fmt::Arguments<'_
     Ok(())
 }
 
-static mut BUFS: [[u8; MAXA]; 4] = [[0; MAXA]; 4];
 
 /// n <= N arguments, each an arbitrary byte string of length 0..MAXA-1 without interior NUL
 fn any_args<const N: usize>() -> ([&'static UnixStr; N], usize) {
     let n: usize = kani::any();
     kani::assume(n <= N);
-    let bufs: &'static mut [[u8; MAXA]; 4] = unsafe { &mut *core::ptr::addr_of_mut!(BUFS) };
+    // leaked heap block: a legitimately 'static home for the argument bytes
+    let bufs: &'static mut [[u8; MAXA]; 4] = alloc::boxed::Box::leak(alloc::boxed::Box::new([[0u8; MAXA]; 4]));
     let mut out: [&'static UnixStr; N] = [UnixStr::from_str_checked("\0"); N];
     let mut i = 0;
     while i < N {
@@ -113,7 +113,8 @@ macro_rules! c20_a {
             let (args, n) = any_args::<$n>();
             let want = ref_a(&args[..n]);
             kani::cover!(want.is_ok() && n == $n, "accepted, all arguments used");
-            kani::cover!(matches!(&want, Ok(w) if w.flag && w.opt.is_some()), "flag and option both given");
+            kani::cover!(matches!(&want, Ok(w) if w.opt.is_some()), "option with its value, and the positional");
+            kani::cover!(matches!(&want, Ok(w) if w.flag), "flag and the positional");
             kani::cover!(want.is_err() && n == $n, "rejected");
             kani::cover!(n == 0, "empty command line");
             let got = ShapeA::arg_parse(&mut args.into_iter().take(n));
@@ -234,9 +235,9 @@ macro_rules! c20_b {
         }
     };
 }
-// @ob C20 quick shape_b_3x3 fns=<ShapeB as ArgParse>::arg_parse(derive),u8::from_str,UnixStr::as_str bound="<=3 arguments of <=3 arbitrary bytes each" stubs="core::fmt::write -> Ok, writes nothing" timeout=2400
+// @ob C20 quick shape_b_3x3 fns=<ShapeB as ArgParse>::arg_parse(derive),u8::from_str,UnixStr::as_str bound="<=3 arguments of <=3 arbitrary bytes each" stubs="core::fmt::write -> Ok, writes nothing" timeout=2400 mem=44
 c20_b!(shape_b_3x3, 3, 6);
-// @ob C20 thorough shape_b_4x3 fns=<ShapeB as ArgParse>::arg_parse(derive),u8::from_str bound="<=4 arguments of <=3 arbitrary bytes each" stubs="core::fmt::write -> Ok, writes nothing" timeout=3400
+// @ob C20 thorough shape_b_4x3 fns=<ShapeB as ArgParse>::arg_parse(derive),u8::from_str bound="<=4 arguments of <=3 arbitrary bytes each" stubs="core::fmt::write -> Ok, writes nothing" timeout=3400 mem=44
 c20_b!(shape_b_4x3, 4, 7);
 
 // ------------------------------------------------------------------ shapes C and D (subcommands)
@@ -319,12 +320,12 @@ macro_rules! c20_c {
         }
     };
 }
-// @ob C20 quick shape_c_3x3 fns=<ShapeC as ArgParse>::arg_parse(derive),<Sub as SubcommandParse>::subcommand_parse(derive),<SubTwo as ArgParse>::arg_parse(derive) bound="<=3 arguments of <=3 arbitrary bytes each" stubs="core::fmt::write -> Ok, writes nothing" timeout=1500
+// @ob C20 quick shape_c_3x3 fns=<ShapeC as ArgParse>::arg_parse(derive),<Sub as SubcommandParse>::subcommand_parse(derive),<SubTwo as ArgParse>::arg_parse(derive) bound="<=3 arguments of <=3 arbitrary bytes each" stubs="core::fmt::write -> Ok, writes nothing" timeout=1500 mem=44
 c20_c!(shape_c_3x3, 3, 6);
-// @ob C20 thorough shape_c_4x3 fns=<ShapeC as ArgParse>::arg_parse(derive),<Sub as SubcommandParse>::subcommand_parse(derive) bound="<=4 arguments of <=3 arbitrary bytes each" stubs="core::fmt::write -> Ok, writes nothing" timeout=3400
+// @ob C20 thorough shape_c_4x3 fns=<ShapeC as ArgParse>::arg_parse(derive),<Sub as SubcommandParse>::subcommand_parse(derive) bound="<=4 arguments of <=3 arbitrary bytes each" stubs="core::fmt::write -> Ok, writes nothing" timeout=3400 mem=44
 c20_c!(shape_c_4x3, 4, 7);
 
-// @ob C20 quick shape_d_required_subcommand fns=<ShapeD as ArgParse>::arg_parse(derive) bound="<=3 arguments of <=3 arbitrary bytes each" stubs="core::fmt::write -> Ok, writes nothing" timeout=1500
+// @ob C20 quick shape_d_required_subcommand fns=<ShapeD as ArgParse>::arg_parse(derive) bound="<=3 arguments of <=3 arbitrary bytes each" stubs="core::fmt::write -> Ok, writes nothing" timeout=1500 mem=44
 #[kani::proof]
 #[kani::unwind(6)]
 #[kani::stub(core::fmt::write, stub_fmt_write)]
